@@ -494,6 +494,12 @@ impl<'a> Exec<'a> {
 		self.db().verif_pipeline_counts()
 	}
 
+	/// Nothing queued, nothing logged but not applied.
+	pub fn pipeline_idle(&self) -> bool {
+		let c = self.counts();
+		c.0 == 0 && !c.2 && c.4 <= 0
+	}
+
 	fn n_logged(&self) -> usize {
 		let q = self.counts().0;
 		self.n().saturating_sub(q)
@@ -1140,7 +1146,8 @@ impl<'a> Exec<'a> {
 		let findings = simdisk::muted(|| structural::check_dir(&live, self));
 		for f in findings {
 			self.claim_ctx = self.claimed_leak.iter().any(|c| f.1.starts_with(&format!("col {c} ")) || f.1.starts_with(&format!("col {c}:")));
-			self.violation("C14", &f.0, f.1);
+			let prop = if f.0 == "root-count" { "C10" } else { "C14" };
+			self.violation(prop, &f.0, f.1);
 			self.claim_ctx = false;
 		}
 	}
